@@ -57,12 +57,16 @@ def reveal (a : AVP) (secret : Bytes) (rv : UInt32) : Except Fault (Except DErr 
     match (readU16 : M Bytes DErr UInt16) plain with
     | .ok total rest =>
       if total.toNat < 6 || total.toNat > 1023 then .ok (.error (.invalidOriginalAVPLength total)) else
-      let plen := total.toNat - 6
-      if plen > rest.length then .ok (.error (.invalidOriginalAVPLength total)) else
-      match (inSub plen (decodeAvp t) : M Bytes DErr (Except DErr AVP)) rest with
-      | .ok r _ => .ok r
-      | .err e _ => .ok (.error e)
+      -- `total_length - Header::LENGTH`
+      match (subM total.toNat 6 : M Bytes DErr Nat) rest with
       | .fault f => .error f
+      | .err e _ => .ok (.error e)
+      | .ok plen rest =>
+        if plen > rest.length then .ok (.error (.invalidOriginalAVPLength total)) else
+        match (inSub plen (decodeAvp t) : M Bytes DErr (Except DErr AVP)) rest with
+        | .ok r _ => .ok r
+        | .err e _ => .ok (.error e)
+        | .fault f => .error f
     | .err e _ => .ok (.error e)
     | .fault f => .error f
   | _ => .ok (.ok a)
